@@ -73,7 +73,7 @@ Outs(rpc, a) ==
     [] rpc = "ContactUnblock" -> If(acct /\ Known(a.k) /\ cs[a.k] = "B")
     [] rpc = "ContactBlock" ->
          If(acct /\ a.k \notin Malformed \cup {"self"} /\ (Known(a.k) => cs[a.k] # "B"))
-    [] rpc = "RefreshContactRequest" -> ERR
+    [] rpc = "RefreshContactRequest" -> IF Known(a.k) THEN ANY ELSE ERR   \* a lookup may be in progress for a known contact
     [] rpc = "ContactRequestSend" ->
          If(/\ acct /\ a.k \notin Malformed \cup {"nomsg", "self"} /\ a.p \in {"ok", "bigmeta"}
             /\ (Known(a.k) => cs[a.k] # "A"))
@@ -143,10 +143,11 @@ Call(rpc, a, o) ==
   /\ a \in AllShapes(rpc)
   /\ o \in Outs(rpc, a)
   /\ res' = o
-  /\ Set(After(rpc, a, o))
+  /\ LET r == After(rpc, a, o) IN Set(r)
 
 HOuts(fn, c) ==
-  CASE fn = "GroupGetSigningPubKey" -> If(c \in {"valid"})
+  CASE fn = "GroupGetSigningPubKey" -> If(c \in {"valid", "garb"})
+    [] fn = "GroupIsValid" -> If(c # "garb")      \* only the signature is checked
     [] fn = "GroupGetLinkKeyArray" -> OK
     [] fn = "ShareableContactGetPubKey" -> If(c \in {"valid", "garb"})
     [] fn = "ShareableContactCheckFormat" -> If(c \in {"valid", "garb"})
@@ -161,6 +162,14 @@ Help(fn, c, o) ==
 Next == \/ \E rpc \in RPC : \E a \in AllShapes(rpc) : \E o \in Outs(rpc, a) : Call(rpc, a, o)
         \/ \E fn \in Helper : \E c \in HelperCls(fn) : \E o \in HOuts(fn, c) : Help(fn, c, o)
 Spec == Init /\ [][Next]_vars
+
+\* For the exhaustive check: only the RPCs that can change the state are explored (the others are
+\* stuttering steps on `state`, which the invariant Frame establishes in every reachable state).
+StateChanging == ContactKeyed \cup {"ContactRequestSend", "ActivateGroup", "DeactivateGroup",
+                                    "MultiMemberGroupLeave", "MultiMemberGroupJoin"}
+MCNext == \E rpc \in StateChanging : \E a \in AllShapes(rpc) : \E o \in Outs(rpc, a) : Call(rpc, a, o)
+MCSpec == Init /\ [][MCNext]_vars
+Frame == \A rpc \in RPC \ StateChanging : \A a \in AllShapes(rpc) : \A o \in Outs(rpc, a) : After(rpc, a, o) = Cur
 
 -----------------------------------------------------------------------------
 TypeOK == /\ acct \in BOOLEAN /\ gm \in BOOLEAN /\ gc \in BOOLEAN /\ gmj \in BOOLEAN
